@@ -121,7 +121,7 @@ def run(ctx):
             t = ml.blocks[p[0]]['term']
             kn = source_names(ml, t['args'][1])
             wn = source_names(ml, ml.blocks[wr[0][0]]['term']['args'][1]) if wr else set()
-            C.check('refstr' in kn and 'refstr' in wn, 'C06-MUST-rewrite', 'move_element_local|6-key-and-text-agree', 'key stored (%s) and text written (%s) differ' % (sorted(kn), sorted(wn)))
+            C.check(bool(kn & wn), 'C06-MUST-rewrite', 'move_element_local|6-key-and-text-agree', 'key stored (%s) and text written (%s) differ' % (sorted(kn), sorted(wn)))
         moved_paths_rule(C, P, ml, 'move_element_local')
         loop_over_all_paths(C, ml, 'move_element_local', rrem, 'original_paths')
 
@@ -146,7 +146,7 @@ def run(ctx):
             wn = source_names(mf, mf.blocks[wr[0][0]]['term']['args'][1])
             for p in ra:
                 kn = source_names(mf, mf.blocks[p[0]]['term']['args'][1])
-                C.check(bool(kn & wn) and 'refstr' in kn, 'C06-MUST-rewrite', 'move_element_full|6-registered-under-rewritten-text',
+                C.check(bool(kn & wn), 'C06-MUST-rewrite', 'move_element_full|6-registered-under-rewritten-text',
                         'a reference inside the moved subtree is registered in the destination under %s, not under the text written (%s): a later rename of its target will not find it' % (sorted(kn), sorted(wn)), mf.where(p))
             # the rewrite is guarded by membership of the old target in the moved subtree
             ck = calls(mf, r'HashMap::<.*>::contains_key$|HashMap<.*>::contains_key$')
@@ -224,6 +224,10 @@ def moved_paths_rule(C, P, b, name):
             sample={'fn': name, 'guard': 'original_paths = move_element.elements_dfs()...path() before content.remove'})
 
 
+def P_bodies(b):
+    return b.program.bodies if getattr(b, 'program', None) is not None else {}
+
+
 def loop_over_all_paths(C, b, name, inner_positions, collection):
     """the loop that contains the given events iterates over the whole collection `collection` (not a filtered or
     conditionally emptied view of it)."""
@@ -234,7 +238,24 @@ def loop_over_all_paths(C, b, name, inner_positions, collection):
         return
     last = max(cands, key=lambda p: len([q for q in cands if b.pos_dominates(q, p)]))
     t = b.blocks[last[0]]['term']
-    roots = strict_source_roots(b, t['args'][0])
+    it = t['args'][0]
+    # `paths.iter().filter_map(|p| Some((p, p.strip_prefix(old_prefix)?)))`: a filter whose only test is the prefix test that the
+    # loop body otherwise makes itself (`if let Some(suffix) = p.strip_prefix(..)`) does not skip anything the loop would have handled
+    from flow import origins as _og
+    for _ in range(3):
+        nxt = None
+        for og in _og(b, it) if is_local_op(it) else []:
+            st = og[1] if og[0] not in ('param', 'const', 'place') else None
+            if isinstance(st, dict) and st.get('k') == 'call' and call_matches(st, r'Iterator>?::(filter_map|filter)$') and len(st['args']) == 2:
+                clo = [o2[1] for o2 in _og(b, st['args'][1]) if o2[0] not in ('param', 'const', 'place') and isinstance(o2[1], dict) and o2[1].get('k') == 'assign' and o2[1]['rv']['k'] == 'agg' and o2[1]['rv'].get('ak') == 'closure']
+                cb = P_bodies(b).get(clo[0]['rv']['fn']) if clo else None
+                if cb is not None and any(call_matches(t2, r'str>?::strip_prefix$') for _, t2 in cb.iter_calls()) and all(
+                        call_matches(t2, r'str>?::strip_prefix$|Try>?::branch$|FromResidual.*::from_residual$|Deref>?::deref$|::as_str$|AsRef<.*>>?::as_ref$|Option::<T>::(map|is_some|as_ref)$') for _, t2 in cb.iter_calls()):
+                    nxt = st['args'][0]
+        if nxt is None:
+            break
+        it = nxt
+    roots = strict_source_roots(b, it)
     ok = roots == {('local', collection)}
     C.check(ok, 'C06-MUST-rewrite', '%s|rewrite-loop-covers-all-collected-paths' % name,
             'the loop that rewrites referrers iterates over %s instead of exactly the collected path list `%s` (a conditionally empty or filtered view skips references)' % (sorted(roots), collection), b.where(last),
